@@ -102,6 +102,12 @@ def cases(tier, seed):
     reqs.append(mie_ref.req_homog(1.2, 22.0))
     out.append({"id": "ms:m=1.2:x=22.0", "kind": "ms", "m": [1.2, 0.0],
                 "x": 22.0})
+    # size parameters x, or interior arguments m x, that are multiples of
+    # pi (round radii at a commensurate wavelength): psi_0 = sin vanishes
+    for m, x in ((1.2, 2 * math.pi), (1.5, 2 * math.pi), (1.25, 2.4 * math.pi),
+                 (1.59 / 1.32, math.pi), (1.2, 4 * math.pi)):
+        out.append({"id": "ms-pi:m=%r:x=%r" % (m, x), "kind": "ms",
+                    "m": [m, 0.0], "x": x})
     # sizes on a narrow resonance of one partial wave of order n > x + 1
     # (committed table, tools/gen_resonances.py): a series that is ended by
     # a "the terms have become small" rule loses exactly that wave.  Quick:
